@@ -4,14 +4,28 @@ package lsp
 // Reads cases (JSON lines) from $VERIF_C16_IN, runs the real ComputeEdits on each pair and
 // writes, per case, the edit list plus the verdict of an independent LSP-3.17 application of
 // those edits (written here from the specification, not from diff.go) to $VERIF_C16_OUT.
+//
+// History independence (seed round 3): C16 quantifies over pairs, so ComputeEdits has to be a FUNCTION of
+// the pair.  Every case is therefore evaluated several times in this one process, at different positions
+// of different call orders ($VERIF_C16_PLAN: reverse order, after a "polluting" pair with a long common
+// prefix, shuffled, twice in a row, and from several goroutines at once, which is how the server calls
+// it); every evaluation must give the result of the first one (which Coq compares with the model), a
+// panic inside ComputeEdits is recovered per evaluation and recorded, and a deviation is reported with
+// the calls that preceded it in the same goroutine.  $VERIF_C16_SEQ switches to the replay mode: every
+// input line is a SEQUENCE of pairs which is evaluated in order on one OS thread without garbage
+// collections in between; $VERIF_C16_JOURNAL names the evaluation in flight should the process die.
 
 import (
 	"bufio"
+	"bytes"
 	"encoding/hex"
 	"encoding/json"
 	"fmt"
 	"os"
+	"runtime"
+	"runtime/debug"
 	"sort"
+	"sync"
 	"testing"
 	"unicode/utf8"
 
@@ -221,19 +235,258 @@ func verifRunOne(c verifC16In) (o verifC16Out) {
 	return o
 }
 
+type verifPlan struct {
+	Runs []struct {
+		Name       string `json:"name"`
+		Goroutines int    `json:"goroutines"`
+		Order      []int  `json:"order"` // >= 0: index into the cases; -(k+1): polluter k
+	} `json:"runs"`
+	Polluters []verifC16In `json:"polluters"`
+}
+
+type verifDeviation struct {
+	Run  string      `json:"run"`
+	Pos  int         `json:"pos"`
+	Prev []int       `json:"prev"` // the calls before it in the same goroutine, nearest first (plan entries)
+	Rec  verifC16Out `json:"rec"`
+}
+
+type verifC16Full struct {
+	verifC16Out
+	Evals int              `json:"evals"`
+	NDev  int              `json:"ndev"`
+	Dev   []verifDeviation `json:"dev,omitempty"`
+}
+
+type verifSeqIn struct {
+	ID  int          `json:"id"`
+	Seq []verifC16In `json:"seq"`
+}
+
+type verifSeqOut struct {
+	ID   int           `json:"id"`
+	Recs []verifC16Out `json:"recs"`
+}
+
+func verifSame(a, b verifC16Out) bool {
+	a.ID, b.ID = 0, 0
+	x, _ := json.Marshal(a)
+	y, _ := json.Marshal(b)
+
+	return bytes.Equal(x, y)
+}
+
+func verifJournal() func(string) {
+	p := os.Getenv("VERIF_C16_JOURNAL")
+	if p == "" {
+		return func(string) {}
+	}
+
+	f, err := os.OpenFile(p, os.O_CREATE|os.O_WRONLY|os.O_TRUNC, 0o644)
+	if err != nil {
+		return func(string) {}
+	}
+
+	var mu sync.Mutex
+
+	return func(s string) { // unbuffered: survives the death of the process
+		mu.Lock()
+		_, _ = f.WriteString(s + "\n")
+		mu.Unlock()
+	}
+}
+
+func verifReadLines(t *testing.T, path string, each func([]byte)) {
+	f, err := os.Open(path)
+	if err != nil {
+		t.Fatal(err)
+	}
+	defer f.Close()
+
+	sc := bufio.NewScanner(f)
+	sc.Buffer(make([]byte, 1<<20), 1<<28)
+
+	for sc.Scan() {
+		each(append([]byte(nil), sc.Bytes()...))
+	}
+
+	if err := sc.Err(); err != nil {
+		t.Fatal(err)
+	}
+}
+
+// verifSequences: the replay mode.  Between two sequences the pools are emptied (two collections); inside a
+// sequence nothing is collected and the goroutine stays on its thread, so that what one call leaves behind
+// is what the next one finds.
+func verifSequences(t *testing.T, in, out string) {
+	w, err := os.Create(out)
+	if err != nil {
+		t.Fatal(err)
+	}
+	defer w.Close()
+
+	bw := bufio.NewWriterSize(w, 1<<20)
+	defer bw.Flush()
+
+	journal := verifJournal()
+
+	runtime.LockOSThread()
+	defer runtime.UnlockOSThread()
+
+	verifReadLines(t, in, func(line []byte) {
+		var c verifSeqIn
+		if err := json.Unmarshal(line, &c); err != nil {
+			t.Fatal(err)
+		}
+
+		runtime.GC()
+		runtime.GC()
+
+		old := debug.SetGCPercent(-1)
+		o := verifSeqOut{ID: c.ID}
+
+		for k, p := range c.Seq {
+			journal(fmt.Sprintf("seq %d element %d", c.ID, k))
+			p.ID = k
+			o.Recs = append(o.Recs, verifRunOne(p))
+		}
+
+		debug.SetGCPercent(old)
+
+		b, err := json.Marshal(o)
+		if err != nil {
+			t.Fatal(err)
+		}
+
+		bw.Write(b)
+		bw.WriteByte('\n')
+	})
+}
+
 func TestVerifC16(t *testing.T) {
 	in, out := os.Getenv("VERIF_C16_IN"), os.Getenv("VERIF_C16_OUT")
 	if in == "" || out == "" {
 		t.Skip("VERIF_C16_IN / VERIF_C16_OUT not set")
 	}
 
-	t.Parallel() // next to TestVerifC16Server (c16_server_test.go)
+	if os.Getenv("VERIF_C16_SEQ") != "" {
+		verifSequences(t, in, out)
 
-	f, err := os.Open(in)
-	if err != nil {
-		t.Fatal(err)
+		return
 	}
-	defer f.Close()
+
+	t.Parallel() // next to TestVerifC16Server (c16_server_test.go) when both are selected
+
+	var cases []verifC16In
+
+	verifReadLines(t, in, func(line []byte) {
+		var c verifC16In
+		if err := json.Unmarshal(line, &c); err != nil {
+			t.Fatal(err)
+		}
+
+		cases = append(cases, c)
+	})
+
+	var plan verifPlan
+
+	if pp := os.Getenv("VERIF_C16_PLAN"); pp != "" {
+		b, err := os.ReadFile(pp)
+		if err != nil {
+			t.Fatal(err)
+		}
+
+		if err := json.Unmarshal(b, &plan); err != nil {
+			t.Fatal(err)
+		}
+	}
+
+	journal := verifJournal()
+	res := make([]verifC16Full, len(cases))
+
+	// run 0: every case once, in the order given; these are the results compared with the model
+	for i := range cases {
+		journal(fmt.Sprintf("forward %d %d", i, cases[i].ID))
+
+		o := verifRunOne(cases[i])
+		if cases[i].Mode == "fmt" && o.Skip == "" { // the formatter ran once: from now on a plain pair
+			cases[i].Mode, cases[i].After = "pair", o.After
+		}
+
+		res[i] = verifC16Full{verifC16Out: o, Evals: 1}
+	}
+
+	var mu sync.Mutex
+
+	for _, run := range plan.Runs {
+		g := run.Goroutines
+		if g < 1 {
+			g = 1
+		}
+
+		var wg sync.WaitGroup
+
+		chunk := (len(run.Order) + g - 1) / g
+
+		for k := 0; k < g; k++ {
+			lo, hi := k*chunk, (k+1)*chunk
+			if lo > len(run.Order) {
+				lo = len(run.Order)
+			}
+
+			if hi > len(run.Order) {
+				hi = len(run.Order)
+			}
+
+			wg.Add(1)
+
+			go func(lo, hi int) {
+				defer wg.Done()
+
+				for pos := lo; pos < hi; pos++ {
+					e := run.Order[pos]
+					if g == 1 {
+						journal(fmt.Sprintf("%s %d %d", run.Name, pos, e))
+					}
+
+					if e < 0 {
+						if k := -e - 1; k < len(plan.Polluters) {
+							_ = verifRunOne(plan.Polluters[k])
+						}
+
+						continue
+					}
+
+					if e >= len(cases) || res[e].Skip != "" {
+						continue
+					}
+
+					o := verifRunOne(cases[e])
+					o.After = res[e].After
+					same := verifSame(o, res[e].verifC16Out)
+
+					mu.Lock()
+					res[e].Evals++
+
+					if !same {
+						res[e].NDev++
+
+						if len(res[e].Dev) < 3 {
+							d := verifDeviation{Run: run.Name, Pos: pos, Rec: o}
+							for q := pos - 1; q >= lo && len(d.Prev) < 3; q-- {
+								d.Prev = append(d.Prev, run.Order[q])
+							}
+
+							res[e].Dev = append(res[e].Dev, d)
+						}
+					}
+					mu.Unlock()
+				}
+			}(lo, hi)
+		}
+
+		wg.Wait()
+	}
 
 	w, err := os.Create(out)
 	if err != nil {
@@ -244,25 +497,13 @@ func TestVerifC16(t *testing.T) {
 	bw := bufio.NewWriterSize(w, 1<<20)
 	defer bw.Flush()
 
-	sc := bufio.NewScanner(f)
-	sc.Buffer(make([]byte, 1<<20), 1<<28)
-
-	for sc.Scan() {
-		var c verifC16In
-		if err := json.Unmarshal(sc.Bytes(), &c); err != nil {
-			t.Fatal(err)
-		}
-
-		b, err := json.Marshal(verifRunOne(c))
+	for i := range res {
+		b, err := json.Marshal(res[i])
 		if err != nil {
 			t.Fatal(err)
 		}
 
 		bw.Write(b)
 		bw.WriteByte('\n')
-	}
-
-	if err := sc.Err(); err != nil {
-		t.Fatal(err)
 	}
 }
